@@ -8,8 +8,9 @@ git -C /repo worktree add -q --detach $W HEAD || exit 2
 ( cd $W && git apply "$P" ) || { echo "patch does not apply"; git -C /repo worktree remove --force $W; exit 2; }
 for ID in "$@"; do
   S=$(date +%s)
-  OUT=$(cd /verif && VERIF_REPO=$W VERIF_WORKTAG=calib$$ ./check $ID --tier quick --failfast 2>&1 | grep -a -E "^VIOLATION|^INCONCLUSIVE|^C[0-9]+:" | head -3 | cut -c1-300)
+  (cd /verif && VERIF_REPO=$W ./check $ID --tier quick --failfast > /tmp/calib_out_$$ 2>&1; echo "exit=$?" >> /tmp/calib_out_$$)
   E=$(date +%s)
-  echo "[$ID $(($E-$S))s] $OUT"
+  echo "[$ID $(($E-$S))s $(grep -a '^exit=' /tmp/calib_out_$$)] $(grep -a -E '^VIOLATION|^INCONCLUSIVE' /tmp/calib_out_$$ | head -2 | cut -c1-260)"
+  rm -f /tmp/calib_out_$$
 done
 git -C /repo worktree remove --force $W
